@@ -38,7 +38,7 @@ m = re.search(r"## What it needs to manifest\s*(.*?)(?:\n## |\Z)", readme, re.S)
 json.dump({
     "id": p + v,
     "breaks_property": p,
-    "round": 13,
+    "round": int(__import__("os").environ.get("ROUND", "13")),
     "repo_commit": rev,
     "origin": "independent sub-agent given only the property text and a scratch worktree of /repo (nothing from /verif)",
     "needs_to_manifest": re.sub(r"\s+", " ", (m.group(1) if m else readme))[:1500],
